@@ -18,7 +18,7 @@ class P:
     _impl = {}
 
     def budget(self, tier):
-        return 24
+        return 40
 
     def cases(self, tier, rng, budget):
         """the two dumps, then DECODING on both load paths: every element of the built-in table under enterprise 0, 40 to a template,
@@ -34,13 +34,17 @@ class P:
             g = Gen(proto, model, rng)
             iana = sorted((eid, t) for (pen, eid), (fid, t) in model.items() if pen == 0 and eid < 30000)
             for k in range(0, len(iana), 40):
-                a = rand_addr(rng)
-                t = Tpl(256 + k // 40, [], [(eid, 0, MINLEN.get(ty, 0) or 4) for eid, ty in iana[k:k + 40]])
-                rec = bytes(rng.randrange(256) for _ in range(sum(f[2] for f in t.fields)))
-                hist = "%s %s %s %s" % (hx(a), hx(g.enc_msg([g.enc_set(g.tpl_set_id(False), g.enc_tpl(t, False))])), hx(a), hx(g.enc_msg([g.enc_set(t.tid, rec)])))
-                line = "imdecode %s %s" % (proto, hist)
-                self.as_hist[line] = ("ipfixh " if proto == "ipfix" else "nf9h ") + hist
-                out.append(line)
+                # (IPFIX: every chunk a second time with its string / octetArray elements as VARIABLE-length fields)
+                for var in ((False, True) if proto == "ipfix" else (False,)):
+                    a = rand_addr(rng)
+                    t = Tpl(256 + k // 40, [], [(eid, 0, 65535 if (var and ty in (13, 14)) else (MINLEN.get(ty, 0) or 4)) for eid, ty in iana[k:k + 40]])
+                    if var and all(f[2] != 65535 for f in t.fields):
+                        continue
+                    rec = g.rand_record(t)[0]
+                    hist = "%s %s %s %s" % (hx(a), hx(g.enc_msg([g.enc_set(g.tpl_set_id(False), g.enc_tpl(t, False))])), hx(a), hx(g.enc_msg([g.enc_set(t.tid, rec)])))
+                    line = "imdecode %s %s" % (proto, hist)
+                    self.as_hist[line] = ("ipfixh " if proto == "ipfix" else "nf9h ") + hist
+                    out.append(line)
         # ... and with RFC 5610 type-information records in the traffic (an exporter describing IANA and enterprise elements, also with
         # the enterprise bit set in the id): what templates mean afterwards is what the tables say, on both load paths
         from props import c03
